@@ -73,6 +73,11 @@ def run_case(ctx, case_seed):
         nm = len([1 for c, m in specs if c == cat])
         for limit in rng.sample([None, None, 1, 2, max(nm - 1, 1), max(nm, 1), nm + 1, 1000], 3):
             queries.append((cat, flt, limit, rng.random() < 0.3, rng.choice(['ids', 'ids', 'metadata', 'lookup', 'lookup_all'])))
+    # string filters that are shell patterns WITHOUT '*' or '?' (bracket classes only), from a stream of their own
+    qr = random.Random(case_seed * 7 + 3)
+    for _ in range(2):
+        queries.append((qr.choice(cats_used), {qr.choice(['k', 'j']): qr.choice(['[a]', 'a[b]', '[!b]', 'a[!c]', ['[ab]b', 3], '[a-c]b'])},
+                        qr.choice([None, 1, 2]), False, qr.choice(['ids', 'metadata', 'lookup_all'])))
     per_cassette_tokens = {}
     moved_dirs = []
     for kind, prefix in CONFIGS:
